@@ -11,7 +11,7 @@ def texts(seed, quick):
     out = []
     n = 400 if quick else 20000
     for _ in range(n):
-        vals = rng.sample(C.VALUES, rng.randint(0, 6))
+        vals = C.sample_values(rng, rng.randint(0, 6))
         t, _ = C.enum_text(rng, vals)
         t = rng.choice(["", " ", "\n"]) + t + rng.choice(["", " ", "\n", " x", "\n]", ",", " // c", " /* c */", "/"])
         b = t.encode()
